@@ -287,6 +287,46 @@ def boundary_races(rng):
                 mode=dict(origin=None, check_spec=False, no_conflicted=False, cov_every_step=False))
 
 
+def declined_races(rng):
+    """C12 family (two-sided, custom translate): side A renames a synchronised file to a path the application's
+    translate function declines (inside the root) while side B writes, renames or deletes the peer copy; any order.
+    Judged only by the guards on engine ACTIONS (CONFINED, OUTSIDE, DECLINED): a declined path is left alone whatever
+    else happens.  (What the views look like afterwards is the open finding E-12 and is not judged here.)"""
+    fl0 = rng.choice([f for f in CLEAN_FLAVOURS if f.cs == (True, True)])
+    fl = E.Flavour(fl0.oip, fl0.cs, False, rng.choice(["path", "oid"]), fl0.roots)
+    a = rng.choice([0, 1])
+    b = 1 - a
+    g = EC.Gen(rng, fl, [0, 1], 0)
+    g.allow_empty = False
+    base = [["mkdir", g.abs(0, "/private")], ["mkdir", g.abs(0, "/sub")]]
+    files = []
+    for i in range(rng.randint(1, 3)):
+        rel = rng.choice(["", "/sub"]) + "/" + g.fresh("F")
+        files.append(rel)
+        base.append(["create", g.abs(0, rel), g.content()])
+    sched = g.sched
+    sched.append(["drain"])
+    f = rng.choice(files)
+    move = ["user", a, ["rename", g.abs(a, f), g.abs(a, "/private/" + g.fresh("F"))]]
+    r = rng.random()
+    if r < 0.5:
+        peer = ["user", b, ["rename", g.abs(b, f), g.abs(b, rng.choice(["", "/sub"]) + "/" + g.fresh("F"))]]
+    elif r < 0.8:
+        peer = ["user", b, ["write", g.abs(b, f), g.content()]]
+    else:
+        peer = ["user", b, ["delete", g.abs(b, f)]]
+    first, second = (move, peer) if rng.random() < 0.5 else (peer, move)
+    sched.append(first)
+    g.engine_noise(0.4)
+    sched.append(second)
+    for _ in range(rng.randint(0, 5)):
+        sched.append(rng.choice([["intake", 0], ["intake", 1], ["sync"]]))
+    sched.append(["drain"])
+    return dict(flavour=fl.key(), base=base, base_other=[], schedule=sched, decline="private", ignore_names=["private"],
+                only_guards=[2, 3, 15], hash_mult=rng.choice([1, 3, 7, 11, 2654435761]),
+                mode=dict(origin=None, check_spec=False, no_conflicted=False, cov_every_step=False))
+
+
 def run_confinement(case, monitor):
     hooks = {}
     if case.get("decline"):
@@ -298,7 +338,11 @@ def run_confinement(case, monitor):
                 return None
             return cloudsync.CloudSync.translate(cs, side, path)
         hooks["translate"] = translate
-    return EC.run_case(case, monitor, hooks=hooks)
+    res = EC.run_case(case, monitor, hooks=hooks)
+    if case.get("only_guards") and res.verdict != [] and res.verdict[1] not in case["only_guards"]:
+        res.extra["ignored_guard"] = res.verdict[1]      # this family judges engine actions only
+        res.verdict = []
+    return res
 
 
 def restarts(rng):
